@@ -552,14 +552,22 @@ fn add_ids(mathml: Element) -> Element {
     let time_part = radix_fmt::radix(time, 36).to_string();
     let random_part = radix_fmt::radix(rand::random::<usize>(), 36).to_string();
     let prefix = "M".to_string() + &time_part[time_part.len() - 3..] + &random_part[random_part.len() - 4..] + "-"; // begin with letter
-    add_ids_to_all(mathml, &prefix, 0);
+    let mut seen_ids = std::collections::HashSet::new();
+    add_ids_to_all(mathml, &prefix, 0, &mut seen_ids);
     return mathml;
 
-    fn add_ids_to_all(mathml: Element, id_prefix: &str, count: usize) -> usize {
+    fn add_ids_to_all(mathml: Element, id_prefix: &str, count: usize, seen_ids: &mut std::collections::HashSet<String>) -> usize {
         let mut count = count;
-        if mathml.attribute("id").is_none() {
-            mathml.set_attribute_value("id", (id_prefix.to_string() + &count.to_string()).as_str());
+        // an id that already occurred earlier in the document identifies nothing -- treat it like a missing id
+        let has_usable_id = match mathml.attribute_value("id") {
+            None => false,
+            Some(id) => seen_ids.insert(id.to_string()),
+        };
+        if !has_usable_id {
+            let id = id_prefix.to_string() + &count.to_string();
+            mathml.set_attribute_value("id", id.as_str());
             mathml.set_attribute_value("data-id-added", "true");
+            seen_ids.insert(id);
             count += 1;
         };
 
@@ -569,7 +577,7 @@ fn add_ids(mathml: Element) -> Element {
 
         for child in mathml.children() {
             let child = as_element(child);
-            count = add_ids_to_all(child, id_prefix, count);
+            count = add_ids_to_all(child, id_prefix, count, seen_ids);
         }
         return count;
     }
